@@ -150,7 +150,7 @@ def draw_points(rng, mm, count):
 
 class FieldProfile(HeapProfile):
     invariants = False
-    tiers = {"quick": 3000, "thorough": 100000}
+    tiers = {"quick": 6000, "thorough": 200000}
 
     def tier_runs(self, tier):
         return self.tiers[tier]
